@@ -3,6 +3,7 @@ package props
 import (
 	"fmt"
 	"reflect"
+	"strings"
 	"sync"
 	"time"
 
@@ -97,6 +98,18 @@ func genValue(fv reflect.Value, e fit.VerifField, vi int, salt int) bool {
 			return false
 		}
 		cands := []string{"a", "héllo wörld", "", "日本"}
+		if vi >= 30 && vi <= 34 {
+			// over-long strings whose cut at the field size falls inside a 3- or 4-byte rune (1, 2 or 3 bytes of it kept)
+			r, keep := "\u20ac", vi-29 // 30,31: euro sign with 1 / 2 bytes inside the field
+			if vi >= 32 {
+				r, keep = "\U0001F600", vi-31 // 32,33,34: emoji with 1 / 2 / 3 bytes inside
+			}
+			if max-keep < 0 {
+				return false
+			}
+			fv.SetString(strings.Repeat("a", max-keep) + r + "zz")
+			return true
+		}
 		if vi >= 10 {
 			// 10..: strings that are not valid UTF-8 (outside C06's domain; C05 only asks that Encode either refuses
 			// them or still writes a well-formed stream); 20..: valid strings that end in / consist of U+FFFD
@@ -168,6 +181,26 @@ func genValue(fv reflect.Value, e fit.VerifField, vi int, salt int) bool {
 			}
 		}
 		return v, true
+	}
+	if e.Array && (vi == 3 || vi == 4) {
+		// an array whose first (vi 3) or middle (vi 4) element is the invalid value while the others carry data: the
+		// array as a whole is set
+		n := int(e.Length)
+		if n < 2 || (vi == 4 && n < 3) {
+			return false
+		}
+		sl := reflect.MakeSlice(fv.Type(), n, n)
+		for i := 0; i < n; i++ {
+			v, _ := pick(i % 4)
+			setInt(sl.Index(i), v, bs, fitmodel.BaseSigned(e.Base))
+		}
+		hole := 0
+		if vi == 4 {
+			hole = n / 2
+		}
+		setInt(sl.Index(hole), inv, bs, fitmodel.BaseSigned(e.Base))
+		fv.Set(sl)
+		return true
 	}
 	if e.Array {
 		lens := []int{1, int(e.Length), 2}
